@@ -119,6 +119,13 @@ def run_case(case):
             for m in methods:
                 if only is None or only == (sem, m):
                     judge(ir, w, sem, m, r, case[:4] + (sem, m), rec=True)
+        # the precomputed-products Jacobian (j_precompute=True), on the rule class where it is defined (C11's known
+        # finding K05 describes the others)
+        from checks.c11_options import jp_clean
+        irw = dict(ir)
+        irw['w'] = w
+        if jp_clean(irw) and (only is None or only == ('real', 'newton+jp')):
+            judge(ir, w, 'real', 'newton', r, case[:4] + ('real', 'newton+jp'), rec=True, jp=True)
     elif case[0] == 'G1':
         _, ir, wrepr, sem, m = case
         w = {k: eval(v, {'Fraction': Fraction}) for k, v in wrepr}
@@ -141,7 +148,7 @@ def oracle(ir, w, rec):
     return _cache[k]
 
 
-def judge(ir, w, sem, method, r, case, rec):
+def judge(ir, w, sem, method, r, case, rec, jp=False):
     import fggs, torch
     ir = dict(ir)
     ir['w'] = w
@@ -163,6 +170,8 @@ def judge(ir, w, sem, method, r, case, rec):
         cots = [('onehot', ea) for ea in assts] + ([('ones', None)] if len(assts) > 1 else []) + [('signed', None)]
     S = IR.semiring(sem, 'float64')
     opts = dict(method=method, semiring=S)
+    if jp:
+        opts['j_precompute'] = True
     if rec:
         opts.update(tol=1e-13, kmax=3000)
     rtol = 1e-6 if rec else 1e-9
@@ -170,7 +179,7 @@ def judge(ir, w, sem, method, r, case, rec):
     trig = sem + ('/rec' if rec else '/nonrec') + ('/zero-valued-nonterminal' if zero_nts else '')
     stalls = bool(zero_nts) and rec and stalls_before_keys_settle(ir, w, val)
     for cot in cots:
-        key = (repr(ir['rules']), repr(sorted(ir['nl'].items())), repr(w), sem, method, cot)
+        key = (repr(ir['rules']), repr(sorted(ir['nl'].items())), repr(w), sem, method, cot, jp)
         try:
             g = IR.build_fgg(ir, sem, 'float64', requires_grad=True)
             z = fggs.sum_product(g, **opts).to_dense()
